@@ -85,12 +85,41 @@ fn tmp_path() -> PathBuf {
     let _ = std::fs::create_dir_all(&d);
     d.join("config.yaml")
 }
+/// What is in the file before a configuration is saved: something longer than the configuration that does
+/// not parse (a save that does not replace the whole file leaves a tail of it behind).
+const JUNK: &str = "\n:::{{{[\n- ? [\n";
+fn prefill(path: &std::path::Path, at_least: usize) {
+    let _ = std::fs::write(path, JUNK.repeat(at_least / JUNK.len() + 1));
+}
+/// an older version of a client configuration: the same, but for the last bit of session_timeout
+/// (same length in the file); built through the public Serialize / Deserialize because the fields are private
+fn client_sibling(c: &ClientConfig) -> Option<ClientConfig> {
+    let mut y = serde_yaml::to_value(c).ok()?;
+    let m = y.as_mapping_mut()?;
+    let k = Y::String("session_timeout".into());
+    let v = m.get(&k)?.as_u64()?;
+    m.insert(k, Y::Number((v ^ 1).into()));
+    serde_yaml::from_value(y).ok()
+}
+fn server_sibling(c: &ServerConfig) -> Option<ServerConfig> { let mut s = c.clone(); s.tcp_config.port ^= 1; Some(s) }
+
+/// The history on ONE path: the file holds junk; an older version of the configuration (the sibling) is
+/// saved and loaded; the configuration is saved over it and loaded twice.
 macro_rules! save_load {
-    ($cfg:expr, $t:ty) => {{
+    ($cfg:expr, $t:ty, $sib:expr) => {{
         let cfg: &$t = $cfg;
         let path = tmp_path();
-        let _ = std::fs::remove_file(&path);
+        let size = guarded(|| serde_yaml::to_string(cfg).map(|s| s.len()).unwrap_or(0)).unwrap_or(0);
+        prefill(&path, 2 * size + 4096);
         let valid = cfg.is_valid();
+        let sib: Option<$t> = guarded(|| $sib(cfg)).ok().flatten();
+        let sib_eq = match &sib {
+            Some(s) => match guarded(|| s.save(&path)) {
+                Ok(Ok(())) => matches!(guarded(|| <$t as Config>::load::<$t>(&path)), Ok(Ok(ref l)) if *l == *s),
+                _ => false,
+            },
+            None => false,
+        };
         match guarded(|| cfg.save(&path)) {
             Err(_) => vec![-2],
             Ok(Err(_)) => vec![if valid { -1 } else { 0 }],
@@ -109,6 +138,9 @@ macro_rules! save_load {
                         out.push(l.is_valid() as i128);
                         let t2 = guarded(|| serde_yaml::to_value(&l)).ok().and_then(|r| r.ok());
                         out.push((t2.is_some() && t2 == tree) as i128);
+                        out.push(sib_eq as i128);
+                        // the same file read a second time
+                        out.push(matches!(guarded(|| <$t as Config>::load::<$t>(&path)), Ok(Ok(ref l2)) if *l2 == *cfg) as i128);
                     }
                 }
                 out
@@ -121,15 +153,15 @@ impl Property for P {
     type Case = Case;
     fn fixed(tier: &str) -> Vec<Case> { fixed_cases(tier) }
     fn gen(r: &mut Rng) -> Case {
-        match guarded(|| if r.chance(1, 2) { gen_client(r, None) } else { gen_server(r, None, false) }) {
+        match guarded(|| if r.chance(1, 2) { gen_client(r, None, 0) } else { gen_server(r, None, false, 0) }) {
             Ok(c) => c,
-            Err(m) => { eprintln!("c41: generator panicked: {}", m); gen_client(&mut Rng::new(1), Some("plain")) }
+            Err(m) => { eprintln!("c41: generator panicked: {}", m); gen_client(&mut Rng::new(1), Some("plain"), 0) }
         }
     }
     fn exec(c: &Case) -> Out {
         let (kind, valid, out) = match &c.cfg {
-            Cfg::Client(cfg) => match guarded(|| cfg.is_valid()) { Ok(v) => (0, v, save_load!(cfg, ClientConfig)), Err(m) => { eprintln!("c41: is_valid panicked: {}", m); (0, false, vec![-3]) } },
-            Cfg::Server(cfg) => match guarded(|| cfg.is_valid()) { Ok(v) => (1, v, save_load!(cfg, ServerConfig)), Err(m) => { eprintln!("c41: is_valid panicked: {}", m); (1, false, vec![-3]) } },
+            Cfg::Client(cfg) => match guarded(|| cfg.is_valid()) { Ok(v) => (0, v, save_load!(cfg, ClientConfig, client_sibling)), Err(m) => { eprintln!("c41: is_valid panicked: {}", m); (0, false, vec![-3]) } },
+            Cfg::Server(cfg) => match guarded(|| cfg.is_valid()) { Ok(v) => (1, v, save_load!(cfg, ServerConfig, server_sibling)), Err(m) => { eprintln!("c41: is_valid panicked: {}", m); (1, false, vec![-3]) } },
         };
         Out { tag: c.tag.clone(), term: format!("(mk_case {} {} {})", kind, c.term, coq_bool(valid)), out }
     }
@@ -164,6 +196,7 @@ fn gen_nonempty(r: &mut Rng) -> String { loop { let s = gen_str(r); if !s.is_emp
 fn gen_key(r: &mut Rng, reserved: bool) -> String { loop { let s = gen_str(r); if !s.is_empty() && (!reserved || s != "ANONYMOUS") { return s; } } }
 fn gen_path(r: &mut Rng) -> PathV { if r.chance(1, 40) { PathV::Bad } else { PathV::Good(gen_str(r)) } }
 fn gen_usize(r: &mut Rng) -> usize { (match r.below(7) { 0 => 0, 1 => 1, 2 => u32::MAX as u64, 3 => u64::MAX, 4 => i64::MAX as u64 + r.below(2), 5 => r.below(100000), _ => r.next() >> r.below(64) }) as usize }
+fn gen_u32(r: &mut Rng) -> u32 { match r.below(4) { 0 => 0, 1 => u32::MAX, _ => r.next() as u32 } }
 fn gen_pos(r: &mut Rng) -> usize { loop { let v = gen_usize(r); if v != 0 { return v; } } }
 fn gen_dur(r: &mut Rng) -> Duration {
     match r.below(6) { 0 => Duration::ZERO, 1 => Duration::MAX, 2 => Duration::new(r.below(100), 999_999_999), 3 => Duration::from_millis(r.below(100000)), 4 => Duration::new(u64::MAX, 0), _ => Duration::new(r.next() >> r.below(64), r.below(1_000_000_000) as u32) }
@@ -174,19 +207,27 @@ fn gen_f64(r: &mut Rng) -> f64 {
         9 => (r.range(-100000, 100000) as f64) / 1000.0, 10 => f64::from_bits(r.next()), _ => r.below(10000) as f64,
     }
 }
-const POLICIES: &[&str] = &["None", "Basic128Rsa15", "Basic256", "Basic256Sha256", "Aes128-Sha256-RsaOaep", "Aes256-Sha256-RsaPss",
-    "http://opcfoundation.org/UA/SecurityPolicy#None", "http://opcfoundation.org/UA/SecurityPolicy#Basic256Sha256"];
+const POLICIES: &[&str] = ALL_POLICIES;
 const MODES: &[&str] = &["None", "Sign", "SignAndEncrypt"];
+const BAD_POLICIES: &[&str] = &["Bogus", "", "none", "Basic256 ", "http://opcfoundation.org/UA/SecurityPolicy#Bogus", "Aes128_Sha256_RsaOaep", "Unknown"];
+const BAD_MODES: &[&str] = &["SingAndEncrypt", "", "none", "Sign ", "Invalid", "SignAndEncrypt\n"];
+const ALL_POLICIES: &[&str] = &["None", "Basic128Rsa15", "Basic256", "Basic256Sha256", "Aes128-Sha256-RsaOaep", "Aes256-Sha256-RsaPss",
+    "http://opcfoundation.org/UA/SecurityPolicy#None", "http://opcfoundation.org/UA/SecurityPolicy#Basic128Rsa15", "http://opcfoundation.org/UA/SecurityPolicy#Basic256",
+    "http://opcfoundation.org/UA/SecurityPolicy#Basic256Sha256", "http://opcfoundation.org/UA/SecurityPolicy#Aes128_Sha256_RsaOaep", "http://opcfoundation.org/UA/SecurityPolicy#Aes256_Sha256_RsaPss"];
 
 /// `special`: put this string in every free-text position (fixed corpus)
 fn pick_str(r: &mut Rng, special: Option<&str>) -> String { match special { Some(s) => s.to_string(), None => gen_str(r) } }
 fn pick_ne(r: &mut Rng, special: Option<&str>) -> String { match special { Some(s) if !s.is_empty() => s.to_string(), _ => gen_nonempty(r) } }
 
-fn gen_client(r: &mut Rng, special: Option<&str>) -> Case {
-    let invalid = special.is_none() && r.chance(1, 12);
+/// a long string that fills every free-text position is written once (coqc reads about 4000 digits a second)
+fn share(term: String, special: Option<&str>) -> String {
+    match special { Some(s) if s.chars().count() > 40 => { let k = t_key(s); format!("(let lg := {} in {})", k, term.replace(&k, "lg")) } _ => term }
+}
+fn gen_client(r: &mut Rng, special: Option<&str>, extra: u64) -> Case {
+    let invalid = special.is_none() && r.chance(1, 8);
     let mut tag = String::from("client");
     let app_name = if invalid && r.chance(1, 3) { String::new() } else { pick_ne(r, special) };
-    let app_uri = pick_ne(r, special);
+    let app_uri = if invalid && r.chance(1, 6) { String::new() } else { pick_ne(r, special) };
     let product_uri = pick_str(r, special);
     let create_sample_keypair = r.chance(1, 2);
     let cert = if r.chance(1, 2) { None } else { Some(match special { Some(s) => PathV::Good(s.into()), None => gen_path(r) }) };
@@ -197,20 +238,25 @@ fn gen_client(r: &mut Rng, special: Option<&str>) -> Case {
     let locales: Vec<String> = (0..r.below(4)).map(|_| pick_str(r, special)).collect();
     // user tokens
     let mut tokens: BTreeMap<String, ClientUserToken> = BTreeMap::new();
-    for _ in 0..r.below(4) {
-        let id = match special { Some(s) if !s.is_empty() && s != "ANONYMOUS" && tokens.is_empty() => s.to_string(), _ => gen_key(r, true) };
+    for _ in 0..(r.below(4) + extra) {
+        let id = if invalid && r.chance(1, 6) { String::new() } else { match special { Some(s) if !s.is_empty() && s != "ANONYMOUS" && tokens.is_empty() => s.to_string(), _ => gen_key(r, true) } };
         let user = if invalid && r.chance(1, 4) { String::new() } else { pick_ne(r, special) };
-        let tok = if r.chance(1, 2) { ClientUserToken { user, password: Some(pick_str(r, special)), cert_path: None, private_key_path: None } }
+        let tok = if invalid && r.chance(1, 5) {
+                      // neither kind of token, or both at once
+                      if r.chance(1, 2) { ClientUserToken { user, password: None, cert_path: None, private_key_path: None } }
+                      else { ClientUserToken { user, password: Some(pick_str(r, special)), cert_path: if r.chance(1, 2) { Some(pick_str(r, special)) } else { None }, private_key_path: Some(pick_str(r, special)) } }
+                  } else if r.chance(1, 2) { ClientUserToken { user, password: Some(pick_str(r, special)), cert_path: None, private_key_path: None } }
                   else { ClientUserToken { user, password: None, cert_path: Some(pick_str(r, special)), private_key_path: if invalid && r.chance(1, 3) { None } else { Some(pick_str(r, special)) } } };
         tokens.insert(id, tok);
     }
     // endpoints
     let mut endpoints: BTreeMap<String, ClientEndpoint> = BTreeMap::new();
-    for _ in 0..r.below(4) {
-        let id = match special { Some(s) if !s.is_empty() && endpoints.is_empty() => s.to_string(), _ => gen_key(r, false) };
-        let policy = if invalid && r.chance(1, 4) { "Bogus".to_string() } else { r.pick(POLICIES).to_string() };
+    for _ in 0..(r.below(4) + extra) {
+        let id = if invalid && r.chance(1, 6) { String::new() } else { match special { Some(s) if !s.is_empty() && endpoints.is_empty() => s.to_string(), _ => gen_key(r, false) } };
+        let policy = if invalid && r.chance(1, 4) { r.pick(BAD_POLICIES).to_string() } else { r.pick(POLICIES).to_string() };
+        let mode = if invalid && r.chance(1, 4) { r.pick(BAD_MODES).to_string() } else { r.pick(MODES).to_string() };
         let user_token_id = if r.chance(1, 3) { "ANONYMOUS".to_string() } else if !tokens.is_empty() && r.chance(1, 2) { tokens.keys().next().unwrap().clone() } else { pick_str(r, special) };
-        endpoints.insert(id, ClientEndpoint { url: pick_str(r, special), security_policy: policy, security_mode: r.pick(MODES).to_string(), user_token_id });
+        endpoints.insert(id, ClientEndpoint { url: pick_str(r, special), security_policy: policy, security_mode: mode, user_token_id });
     }
     let default_endpoint = if endpoints.is_empty() || r.chance(1, 3) { if invalid && !endpoints.is_empty() && r.chance(1, 3) { "no such endpoint".to_string() } else { String::new() } }
                            else { let k: Vec<&String> = endpoints.keys().collect(); k[r.below(k.len() as u64) as usize].clone() };
@@ -219,7 +265,7 @@ fn gen_client(r: &mut Rng, special: Option<&str>) -> Case {
     let retry_limit: i32 = match r.below(5) { 0 => -1, 1 => 0, 2 => i32::MAX, _ => r.below(1000) as i32 };
     let durs: Vec<Duration> = (0..6).map(|_| gen_dur(r)).collect();
     let max_inflight_publish = gen_usize(r);
-    let session_timeout = match r.below(4) { 0 => 0, 1 => u32::MAX, _ => r.next() as u32 };
+    let session_timeout = gen_u32(r);
     let ignore_clock_skew = r.chance(1, 2);
     let perf = (gen_usize(r), gen_usize(r));
     let session_name = pick_str(r, special);
@@ -242,6 +288,7 @@ fn gen_client(r: &mut Rng, special: Option<&str>) -> Case {
     if !cfg.is_valid() { tag.push_str("-invalid"); }
     tag.push_str(&format!("-{}tok-{}ep", tokens.len(), endpoints.len()));
     if special.is_some() { tag.push_str("-special"); }
+    if extra > 0 { tag.push_str("-large"); }
 
     let t_tok = |t: &ClientUserToken| t_rec(vec![t_str(&t.user), t_opt(t.password.as_ref().map(|s| t_str(s))), t_opt(t.cert_path.as_ref().map(|s| t_str(s))), t_opt(t.private_key_path.as_ref().map(|s| t_str(s)))]);
     let t_ep = |e: &ClientEndpoint| t_rec(vec![t_str(&e.url), t_str(&e.security_policy), t_str(&e.security_mode), t_str(&e.user_token_id)]);
@@ -255,46 +302,51 @@ fn gen_client(r: &mut Rng, special: Option<&str>) -> Case {
         t_int(max_inflight_publish as i128), t_int(session_timeout as i128),
         t_rec(vec![t_bool(ignore_clock_skew), t_int(perf.0 as i128), t_int(perf.1 as i128)]), t_str(&session_name),
     ]);
-    Case { cfg: Cfg::Client(cfg), term, tag }
+    Case { cfg: Cfg::Client(cfg), term: share(term, special), tag }
 }
 
-fn gen_server(r: &mut Rng, special: Option<&str>, force_thumb: bool) -> Case {
-    let invalid = special.is_none() && r.chance(1, 12);
+fn gen_server(r: &mut Rng, special: Option<&str>, force_thumb: bool, extra: u64) -> Case {
+    let invalid = special.is_none() && r.chance(1, 8);
     let mut tag = String::from("server");
     let cert = if r.chance(1, 2) { None } else { Some(match special { Some(s) => PathV::Good(s.into()), None => gen_path(r) }) };
     let pkey = if r.chance(1, 2) { None } else { Some(match special { Some(s) => PathV::Good(s.into()), None => gen_path(r) }) };
     let pki = match special { Some(s) => PathV::Good(s.into()), None => gen_path(r) };
     let with_thumb = force_thumb || (special.is_none() && r.chance(1, 15));
     let mut tokens: BTreeMap<String, ServerUserToken> = BTreeMap::new();
-    for _ in 0..(r.below(4) + force_thumb as u64) {
-        let id = match special { Some(s) if !s.is_empty() && s != "ANONYMOUS" && tokens.is_empty() => s.to_string(), _ => gen_key(r, true) };
+    for _ in 0..(r.below(4) + force_thumb as u64 + extra) {
+        let id = if invalid && r.chance(1, 6) { "ANONYMOUS".to_string() } else { match special { Some(s) if !s.is_empty() && s != "ANONYMOUS" && tokens.is_empty() => s.to_string(), _ => gen_key(r, true) } };
         let user = if invalid && r.chance(1, 4) { String::new() } else { pick_ne(r, special) };
         let x509 = force_thumb || r.chance(1, 2);
+        // invalid: a password and a certificate at once, or neither
+        let (both, neither) = if invalid && r.chance(1, 5) { let b = r.chance(1, 2); (b, !b) } else { (false, false) };
         tokens.insert(id, ServerUserToken {
-            user, pass: if x509 { None } else { Some(pick_str(r, special)) }, x509: if x509 { Some(pick_str(r, special)) } else { None },
+            user, pass: if (x509 && !both) || neither { None } else { Some(pick_str(r, special)) }, x509: if (x509 || both) && !neither { Some(pick_str(r, special)) } else { None },
             thumbprint: if x509 && with_thumb { Some(Thumbprint::new(&r.bytes(20))) } else { None },
         });
     }
     let mut endpoints: BTreeMap<String, ServerEndpoint> = BTreeMap::new();
-    let n_ep = if invalid && r.chance(1, 4) { 0 } else { 1 + r.below(3) };
+    let n_ep = if invalid && r.chance(1, 4) { 0 } else { 1 + r.below(3) + extra };
     for _ in 0..n_ep {
         let id = match special { Some(s) if endpoints.is_empty() => s.to_string(), _ => gen_str(r) };
         let secure = r.chance(1, 2);
-        let policy = if invalid && r.chance(1, 4) { "Bogus".to_string() } else if secure { r.pick(&POLICIES[1..6]).to_string() } else { "None".to_string() };
-        let mode = if secure { r.pick(&MODES[1..]).to_string() } else { "None".to_string() };
+        let uri = if r.chance(1, 3) { 6 } else { 0 };     // the uri form of a policy is accepted too
+        let policy = if invalid && r.chance(1, 4) { r.pick(BAD_POLICIES).to_string() } else if secure { r.pick(&ALL_POLICIES[1 + uri..6 + uri]).to_string() } else { ALL_POLICIES[uri].to_string() };
+        // invalid: an unknown mode, or None on one side only
+        let mode = if invalid && r.chance(1, 4) { if r.chance(1, 2) { r.pick(BAD_MODES).to_string() } else if secure { "None".to_string() } else { "Sign".to_string() } }
+                   else if secure { r.pick(&MODES[1..]).to_string() } else { "None".to_string() };
         let mut ids: BTreeSet<String> = BTreeSet::new();
         if r.chance(1, 2) { ids.insert("ANONYMOUS".into()); }
-        for k in tokens.keys() { if r.chance(1, 2) { ids.insert(k.clone()); } }
+        for k in tokens.keys() { if r.chance(1, if extra > 0 { 16 } else { 2 }) { ids.insert(k.clone()); } }
         if invalid && r.chance(1, 4) { ids.insert("no such token".into()); }
         endpoints.insert(id, ServerEndpoint {
             path: pick_str(r, special), security_policy: policy, security_mode: mode, security_level: r.next() as u8,
-            password_security_policy: if r.chance(1, 2) { None } else { Some(r.pick(&POLICIES[0..6]).to_string()) }, user_token_ids: ids,
+            password_security_policy: if r.chance(1, 2) { None } else if invalid && r.chance(1, 4) { Some(r.pick(BAD_POLICIES).to_string()) } else { Some(r.pick(ALL_POLICIES).to_string()) }, user_token_ids: ids,
         });
     }
-    let default_endpoint = if endpoints.is_empty() || r.chance(1, 2) { None } else { let k: Vec<&String> = endpoints.keys().collect(); Some(k[r.below(k.len() as u64) as usize].clone()) };
+    let default_endpoint = if invalid && r.chance(1, 6) { Some("no such endpoint".to_string()) } else if endpoints.is_empty() || r.chance(1, 2) { None } else { let k: Vec<&String> = endpoints.keys().collect(); Some(k[r.below(k.len() as u64) as usize].clone()) };
     let limits = Limits {
         clients_can_modify_address_space: r.chance(1, 2), max_subscriptions: gen_usize(r), max_monitored_items_per_sub: gen_usize(r), max_monitored_item_queue_size: gen_usize(r),
-        max_array_length: if invalid && r.chance(1, 4) { 0 } else { gen_pos(r) }, max_string_length: gen_pos(r), max_byte_string_length: gen_pos(r),
+        max_array_length: if invalid && r.chance(1, 4) { 0 } else { gen_pos(r) }, max_string_length: if invalid && r.chance(1, 6) { 0 } else { gen_pos(r) }, max_byte_string_length: if invalid && r.chance(1, 6) { 0 } else { gen_pos(r) },
         min_sampling_interval: gen_f64(r), min_publishing_interval: gen_f64(r), max_message_size: gen_usize(r), max_chunk_count: gen_usize(r),
         send_buffer_size: gen_usize(r), receive_buffer_size: gen_usize(r),
     };
@@ -303,7 +355,7 @@ fn gen_server(r: &mut Rng, special: Option<&str>, force_thumb: bool) -> Case {
         create_sample_keypair: r.chance(1, 2), certificate_path: cert.as_ref().map(|p| p.buf()), private_key_path: pkey.as_ref().map(|p| p.buf()),
         certificate_validation: CertificateValidation { trust_client_certs: r.chance(1, 2), check_time: r.chance(1, 2) }, pki_dir: pki.buf(),
         discovery_server_url: if r.chance(1, 2) { None } else { Some(pick_str(r, special)) },
-        tcp_config: TcpConfig { hello_timeout: r.next() as u32, host: pick_str(r, special), port: r.next() as u16 },
+        tcp_config: TcpConfig { hello_timeout: gen_u32(r), host: pick_str(r, special), port: match r.below(4) { 0 => 0, 1 => u16::MAX, _ => r.next() as u16 } },
         limits, performance: Performance { single_threaded_executor: r.chance(1, 2) },
         locale_ids: (0..r.below(4)).map(|_| pick_str(r, special)).collect(), user_tokens: tokens,
         discovery_urls: (0..(if invalid && r.chance(1, 4) { 0 } else { 1 + r.below(3) })).map(|_| pick_str(r, special)).collect(),
@@ -315,6 +367,7 @@ fn gen_server(r: &mut Rng, special: Option<&str>, force_thumb: bool) -> Case {
     if cfg.limits.min_sampling_interval.is_nan() || cfg.limits.min_publishing_interval.is_nan() { tag.push_str("-nan"); }
     tag.push_str(&format!("-{}tok-{}ep", cfg.user_tokens.len(), cfg.endpoints.len()));
     if special.is_some() { tag.push_str("-special"); }
+    if extra > 0 { tag.push_str("-large"); }
 
     let l = &cfg.limits;
     let t_tok = |t: &ServerUserToken| t_rec(vec![t_str(&t.user), t_opt(t.pass.as_ref().map(|s| t_str(s))), t_opt(t.x509.as_ref().map(|s| t_str(s))),
@@ -337,7 +390,7 @@ fn gen_server(r: &mut Rng, special: Option<&str>, force_thumb: bool) -> Case {
         t_opt(cfg.default_endpoint.as_ref().map(|s| t_str(s))),
         t_map(cfg.endpoints.iter().map(|(k, v)| (k.clone(), t_ep(v))).collect()),
     ]);
-    Case { cfg: Cfg::Server(cfg), term, tag }
+    Case { cfg: Cfg::Server(cfg), term: share(term, special), tag }
 }
 
 fn fixed_cases(tier: &str) -> Vec<Case> {
@@ -345,21 +398,29 @@ fn fixed_cases(tier: &str) -> Vec<Case> {
     // every YAML-special string in every free-text position, client and server
     for (i, s) in SPECIAL.iter().enumerate() {
         let mut r = Rng::new(1000 + i as u64);
-        c.push(gen_client(&mut r, Some(s)));
-        c.push(gen_server(&mut r, Some(s), false));
+        c.push(gen_client(&mut r, Some(s), 0));
+        c.push(gen_server(&mut r, Some(s), false, 0));
     }
     // the sample-like defaults
     let mut r = Rng::new(1);
-    c.push(gen_client(&mut r, Some("plain")));
-    c.push(gen_server(&mut r, Some("plain"), false));
+    c.push(gen_client(&mut r, Some("plain"), 0));
+    c.push(gen_server(&mut r, Some("plain"), false, 0));
+    // large files: past any fixed-size read buffer (8 KiB, 64 KiB)
+    let long: String = "opc.tcp://host:4855/a path, with: #yaml [chars] ".repeat(8);
+    c.push(gen_client(&mut Rng::new(2), Some("plain"), 12));
+    c.push(gen_server(&mut Rng::new(3), Some("plain"), false, 12));
+    c.push(gen_client(&mut Rng::new(4), Some(&long), 60));
+    c.push(gen_server(&mut Rng::new(5), Some(&long), false, 60));
     // known finding 1: a server user token whose thumbprint cache is filled
-    c.push(gen_server(&mut Rng::new(77), Some("plain"), true));
-    c.push(gen_server(&mut Rng::new(78), None, true));
+    c.push(gen_server(&mut Rng::new(77), Some("plain"), true, 0));
+    c.push(gen_server(&mut Rng::new(78), None, true, 0));
     // a path that is not valid UTF-8 (save panicked before the fix)
-    for seed in 0..40u64 { let mut r = Rng::new(5000 + seed); let k = gen_client(&mut r, None); if k.tag.contains("badpath") && !k.tag.contains("invalid") { c.push(k); break; } }
-    for seed in 0..40u64 { let mut r = Rng::new(6000 + seed); let k = gen_server(&mut r, None, false); if k.tag.contains("badpath") && !k.tag.contains("invalid") { c.push(k); break; } }
+    for seed in 0..40u64 { let mut r = Rng::new(5000 + seed); let k = gen_client(&mut r, None, 0); if k.tag.contains("badpath") && !k.tag.contains("invalid") { c.push(k); break; } }
+    for seed in 0..40u64 { let mut r = Rng::new(6000 + seed); let k = gen_server(&mut r, None, false, 0); if k.tag.contains("badpath") && !k.tag.contains("invalid") { c.push(k); break; } }
+    // configurations that are not valid (every branch of the is_valid functions): save must refuse them
+    { let mut n = 0; let mut seed = 7000u64; while n < 24 && seed < 7400 { let mut r = Rng::new(seed); let k = if seed % 2 == 0 { gen_client(&mut r, None, 0) } else { gen_server(&mut r, None, false, 0) }; if k.tag.contains("invalid") { c.push(k); n += 1; } seed += 1; } }
     if tier == "thorough" {
-        for (i, s) in SPECIAL.iter().enumerate() { for j in 0..3u64 { let mut r = Rng::new(9000 + 10 * i as u64 + j); c.push(gen_client(&mut r, Some(s))); c.push(gen_server(&mut r, Some(s), false)); } }
+        for (i, s) in SPECIAL.iter().enumerate() { for j in 0..3u64 { let mut r = Rng::new(9000 + 10 * i as u64 + j); c.push(gen_client(&mut r, Some(s), 0)); c.push(gen_server(&mut r, Some(s), false, 0)); } }
     }
     c
 }
